@@ -394,6 +394,12 @@ where
             quotient_polys
                 .into_par_iter()
                 .flat_map(|mut quotient_poly| {
+                    #[cfg(plonky2_verif)]
+                    if plonky2::verif_knobs::get().lenient_trim {
+                        quotient_poly
+                            .coeffs
+                            .truncate(degree * stark.quotient_degree_factor());
+                    }
                     quotient_poly
                         .trim_to_len(degree * stark.quotient_degree_factor())
                         .expect(
